@@ -196,3 +196,5 @@ def at_entry(v): return v
 def fresh(v): return True
 
 def item(xs, j): return xs[j]
+
+def num_i(v): return int(v)
